@@ -455,7 +455,7 @@ def sumv(*args):
     return sum(args)
 
 
-def library_checks(v, vectors, cfgname):
+def library_checks(v, vectors, cfgname, found):
     from pycel.excelutil import (AddressRange, build_operator_operand_fixup,
                                  in_array_formula_context)
     from pycel.lib.function_helpers import cse_array_wrapper
@@ -487,8 +487,9 @@ def library_checks(v, vectors, cfgname):
             else:
                 ok = not isinstance(got, Exception) and xl.same_value(got, want_res)
             if not ok:
-                v.violation(f'{what} on shapes {vec["shapes"]}: got {short(got)}, '
-                            f'expected {want_res!r}', case)
+                found.setdefault('library lift', []).append(
+                    (f'{what} on shapes {vec["shapes"]}: got {short(got)}, '
+                     f'expected {want_res!r}', case))
         # the fit depends on the result and the target only
         if st == (1, 1):
             continue        # a 1x1 target is loaded as a plain formula
@@ -508,9 +509,10 @@ def library_checks(v, vectors, cfgname):
             got = call(fit)
             v.case(('lib-fit', cfgname, fkey))
             if isinstance(got, Exception) or not xl.same_value(got, want_cells):
-                v.violation(f'fit_to_range of a {vec["rshape"]} result to a '
-                            f'{st[0]}x{st[1]} target: got {short(got)}, expected '
-                            f'{want_cells!r}', dict(case, result=result))
+                found.setdefault('library fit', []).append(
+                    (f'fit_to_range of a {vec["rshape"]} result to a '
+                     f'{st[0]}x{st[1]} target: got {short(got)}, expected '
+                     f'{want_cells!r}', dict(case, result=result)))
 
 
 # ---------------------------------------------------------------------------
@@ -657,12 +659,12 @@ def run(tier, seed):
         coverage = cov.result()
 
     filedir = tlc.new_scratch('xlsx')
-    tasks, undefined, nvec = [], 0, 0
+    tasks, undefined, nvec, found = [], 0, 0, {}
     for n, (label, res) in enumerate(results):
         v.add_tlc(res, 'Arrays ' + label)
         nvec += len(res.json)
         undefined += sum(1 for x in res.json if not x['defined'])
-        library_checks(v, res.json, label)
+        library_checks(v, res.json, label, found)
         groups = group_vectors(res.json)
         fraction = 1.0 if tier == 'thorough' else (0.5 if n == 0 else 0.25)
         tasks += make_tasks(label, groups, tier, rnd, filedir, fraction)
@@ -674,7 +676,7 @@ def run(tier, seed):
     procs = max(2, min(8 if tier == 'quick' else 12, (os.cpu_count() or 2)))
     agg = dict(evals=0, skipped_cells=0, skipped_targets=0, workbooks=0,
                informative=0, file_workbooks=sum(1 for t in tasks if t['file']))
-    per_template, found = {}, {}
+    per_template = {}
     ctx = multiprocessing.get_context('fork')
     with ctx.Pool(procs) as pool:
         for task, out in zip(tasks, pool.imap(run_group, tasks, chunksize=4)):
